@@ -26,6 +26,15 @@ Streams
                               on four routes to the same definition: get_names (TreeNameDefinition),
                               infer() on its name, the names parent() hands out along every chain and the
                               names get_context returns (ValueNames)
+  oracle-fullname-ref / member-fullname / qualname/members   definitions reached through REFERENCES: generated
+             class hierarchies (gen/c18_members.py: nested classes, single / multiple inheritance, overriding,
+             diamonds; receivers = instances, call results and the classes themselves) with `r = receiver.attr`
+             lines; Script.infer and Script.goto on the attribute hand out Names of def/class statements somewhere
+             along the receiver's mro.  Oracle (stream oracle-fullname, routes ref-infer / ref-goto): the project is
+             imported and every such Name must carry __module__ + '.' + __qualname__ of the object the statement it
+             sits on created - the class that HOLDS the definition, not the class it was fetched through.
+             Correspondence: Model/Members (py__mro__ depth-first listing, first filter wins, qualified names of the
+             wrapped MethodValue) via driver op `members`; its Python-side spec defQualname vs CPython
   fullname-collision  coverage of the part of the domain where the module's dotted path and the
              qualname share spellings (gen/c18_layouts.py): the analysed file is f.py, K/f.py, f/f/f.py,
              K/__init__.py ... (regular and namespace parents, depth <= 3) and its functions, classes,
@@ -70,12 +79,23 @@ MANIFEST = dict(
          'over it for both kinds of names (TreeNameDefinition, ValueName), full_name_keeps_repeated_components is the '
          'kernel-checked case of a module K.K whose class, method and nested class are all called K; projects whose '
          'module path collides with the definition names at every depth are generated, imported with CPython and '
-         'compared on four routes (get_names, infer, parent(), get_context).',
+         'compared on four routes (get_names, infer, parent(), get_context). Members reached through references: '
+         'Model/Members transcribes ClassMixin.py__mro__ (depth-first listing; shape read by the translator: '
+         'Gen.C18.mroShape), the first-filter-wins lookup and the qualified names of the value found (a BoundMethod has '
+         'no get_qualified_names of its own - Gen.C18.boundMethodOwnQual, any such method in BoundMethod / FunctionMixin '
+         '/ ValueWrapper breaks the tie - so the wrapped MethodValue answers with the class whose body holds the def); '
+         'member_lookup_in_mro, member_own_body_first, member_full_name_eq_qualname_partial (full_name = module path ++ '
+         '__qualname__ of the object bound in the defining class, for every hierarchy, receiver and name), '
+         'member_full_name_same_definition, member_lookup_class_witness (kernel-checked: naming the class the method was '
+         'looked up through gives mod.U.f for the def whose __qualname__ is S.B.f), member_source_shapes. Tie: '
+         'full_name of Script.infer() on `receiver.attr` vs the model on generated class hierarchies (nested classes, '
+         'multiple inheritance, overriding, diamonds; instances, call results and classes as receivers); oracle: every '
+         'Name infer()/goto() hand out for such a reference vs __module__ + __qualname__ of the imported object.',
     note='Modelled not verified: parso (tokeniser/parser; get_leaf_for_position = first leaf whose end is not before the '
          'position), the printer and table builder of harness/gen/nesting.py (cross-checked against the parso tree on '
          'every program), module string_names taken as a parameter (validated by importing the scratch project). '
          'Imports, star-imports, stubs and compiled names are outside the model.',
-    technique='Lean 4 proof over hand-written model + differential correspondence + ast/execution oracle',
+    technique='Lean 4 proof over hand-written models (Nesting, Members) + differential correspondence + ast/execution oracle',
     design='5.C18')
 
 SCRATCH = os.environ.get('VERIF_SCRATCH_C18', '/tmp/scratch-c18')
@@ -960,6 +980,9 @@ def run(ctx):
         'from one abstract program by harness/gen/nesting.py; the table is compared with the parso tree on every program',
         'ModuleValue.string_names is a parameter of the model (the dotted path below the project root); the oracle '
         'imports the scratch project with CPython to obtain __module__',
+        'members through references: class statements with plain / async methods and nested classes, bases spelled as '
+        'bare sibling names or dotted paths of finished top-level classes; no self attributes, descriptors, decorators, '
+        'metaclasses or __getattr__ (ClassFilter / InstanceClassFilter order is taken from the mro listing)',
         'fragment: module/def/async def/class/lambda/comprehension scopes, decorators, defaults, annotations, bases, '
         'one-line suites, if/else blocks, bracketed continuation lines, blank and comment lines, trailing blanks; '
         'no imports, no strings spanning lines, no backslash continuations, no tabs',
